@@ -6,6 +6,10 @@ CHECKS = {
    text="Exhaustive enumeration of all thread schedules (bounded by the number of non-default scheduling choices, iterated 0,1,2[,3]) of the real ATP client against a scripted correct peer, for 15-18 session histories of 1-3 Executes with signals and step-fatal errors; every execution must end with every Execute and Close returned, own results delivered, no client thread left, no timer needed.",
    note="Trusted: the cooperative scheduler shim (engine/mcrt) and the source rewriter (engine/vinstr); scripted peer is causally correct; scheduling points only at sync/channel/transport operations; bounds as reported in evidence.",
    technique="stateless model checking of the implementation: delay/preemption-bounded DFS over schedules under a controlled scheduler", design="DESIGN.md §3, §7 C06"),
+ "C07": dict(level="fault_enumeration", engine="S",
+   text="Client scripts = handshake + every sequence of 1-2 (thorough: 3) messages over a 23-item alphabet of valid and invalid client behaviour (7 step behaviours incl. panic/undeclared/invalid output, duplicate/unknown/empty ids, wrongly typed payloads, 6 signal variants, unknown message id, client-done, malformed CBOR), cut at every byte offset, then end of input (thorough: server output failing from write j on); for each script every thread schedule of the real RunATPServer within the delay bound. No panic, no deadlock, the server returns, output is a well-formed message sequence with exactly one terminal message per accepted work-start.",
+   note="Trusted: scheduler shim, rewriter; 'accepted work-start' computed from the script; signal-handler panics (plugin bug, not client input) are outside the alphabet.",
+   technique="exhaustive enumeration of client message sequences and truncation points combined with delay-bounded schedule exploration of the implementation", design="DESIGN.md §7 C07"),
  "C08": dict(level="fault_enumeration", engine="S",
    text="For 11-13 session scenarios (v3 with 1-3 concurrent runs, signals, non-fatal errors, a later Execute; v1; unusable hellos) every byte offset of the server->client transcript x {EOF, read error, 0xFF garbage} and every client write index x {fails once, fails persistently} is enumerated as an environment choice, each under every thread schedule within the delay bound; ReadSchema/Execute/Close must return, nothing may panic or stay blocked, and success may be reported only for a run whose work-done message arrived intact, with exactly its payload.",
    note="Trusted: scheduler shim, rewriter, the scripted peer built from the repository's own message types; 0xFF-garbage argument for 'not intact' (DESIGN §4.2); timers virtual.",
